@@ -132,6 +132,10 @@ func (e *evidence) write() {
 	}
 	b, _ := json.MarshalIndent(doc, "", " ")
 	dir := filepath.Join(verifRoot(), "evidence")
+	if r := os.Getenv("VERIF_REPO"); r != "" && r != "/repo" {
+		// runs against a scratch worktree (seeded changes) must not overwrite the evidence of /repo
+		dir = filepath.Join(verifRoot(), "out", "evidence_other_tree")
+	}
 	os.MkdirAll(dir, 0o755)
 	if err := os.WriteFile(filepath.Join(dir, e.prop.ID+".json"), b, 0o644); err != nil {
 		fmt.Println("cannot write evidence:", err)
